@@ -119,6 +119,18 @@ func cellimg(pat, r, c int) ops.Op {
 	return ops.Op{K: "cellimg", Img: &gen.Img{Fmt: "jpeg", W: 5, H: 5, Pat: pat, Name: "b.jpg"}, I: []int{0, r, c}, F: []float64{10}}
 }
 
+func wcell(variant, nameSel int) ops.Op {
+	return ops.Op{K: "wcellimg", Img: &gen.Img{Fmt: "gif", W: 5, H: 4, Pat: 20 + variant, Name: "c.gif"}, I: []int{0, variant, variant + 1, variant, nameSel}, F: []float64{10, 8}, S: []string{"alt", "title"}}
+}
+
+func wagain(pat int) ops.Op {
+	return ops.Op{K: "wtplagain", Img: &gen.Img{Fmt: "jpeg", W: 6, H: 5, Pat: pat, Name: "r.jpg"}}
+}
+
+func wtpl(n, placement, via, kinds int) ops.Op {
+	return ops.Op{K: "wtplimgs", Img: &gen.Img{Fmt: "png", W: 5, H: 5, Pat: 30 + n, Name: "t.png"}, I: []int{n, placement, via, kinds, -1}, B: []bool{placement == 0}}
+}
+
 func fixedCases() []Case {
 	if os.Getenv("C02_NOFIXED") != "" { // sensitivity runs: let the generated search find the breakage on its own
 		return nil
@@ -154,5 +166,19 @@ func fixedCases() []Case {
 		{Ops: []ops.Op{img(1, "a.png"), hdr, li}, Foreign: &Foreign{Scheme: "keep", Styles: "rId1", Extras: []string{"theme", "fontTable", "customXml"}, Root: 1, HdrRels: true},
 			Post: []ops.Op{img(2, "b.png"), ftr, tbl, cellimg(3, 0, 0), reopen, img(4, "c.png")}},
 		{Ops: []ops.Op{img(1, "a.png"), hdr, ftr}, Foreign: &Foreign{Scheme: "reverse", Styles: "rId1", StylesEnd: true, Root: 2}, Post: []ops.Op{img(2, "b.png"), li, img(3, "b.png")}},
+		// widening: the file serialiser between additions; cell pictures from files; notes removed down to none and saved
+		{Ops: []ops.Op{img(1, "a.png"), {K: "wsave", I: []int{0}}, hdr, img(2, "b.png"), {K: "wsave", I: []int{2}}, tbl, wcell(0, 3), wcell(1, 4), {K: "wreopenf", I: []int{1}}, wcell(3, 5), ftr, {K: "wsave", I: []int{3}},
+			{K: "footnote", S: []string{"t", "n"}}, {K: "wnote", I: []int{1, 0, 0}, S: []string{"t", "n"}}, {K: "save"}, {K: "wnote", I: []int{0, 0, 0}, S: []string{"t", "n"}}, {K: "wnote", I: []int{5, 0, 0}, S: []string{"t", "n"}}, {K: "wsave", I: []int{0}}}},
+		// a kept engine: the base document changes after the template was loaded, renders are made later; base and render extended alternately with one picture
+		{Ops: []ops.Op{img(1, "a.png"), {K: "wtplload", B: []bool{true}}, img(2, "b.png"), hdr, wagain(6), img(3, "c.png"), {K: "wswap"}, img(4, "same.png"), {K: "wswap"}, img(4, "same.png"), wagain(7), li, {K: "wswap"}, ftr}},
+		// several placeholders, pictures given in every way, through the engine and through TemplateRenderer; a burst past the one-digit boundary
+		{Ops: []ops.Op{hdr, wtpl(4, 0, 0, 0xE4), img(1, "a.png"), wtpl(3, 2, 1, 0x1B), {K: "wburst", I: []int{10, 2, 1, 0}, Img: &gen.Img{Fmt: "png", W: 3, H: 3, Pat: 40, Name: "b.png"}}, reopen, img(2, "z.png"), li}},
+		// foreign shapes of the widening: absolute targets, explicit TargetMode, prefixed relationship parts, first section with its own header, notes with own relationships, many links, opened from a file
+		{Ops: []ops.Op{img(1, "a.png"), hdr, ftr, li, {K: "footnote", S: []string{"t", "n"}}},
+			Foreign: &Foreign{Scheme: "straddle", Styles: "rId1", AbsTargets: 15, ExplicitInternal: true, RelsPrefix: 3, MultiSect: true, NoteRels: true, ExtraLinks: 9, DirEntries: true, OpenPath: true},
+			Post:    []ops.Op{img(2, "b.png"), {K: "footnote", S: []string{"t2", "n2"}}, hdr, tpl, img(3, "c.png"), {K: "wsave", I: []int{0}}}},
+		{Ops: []ops.Op{img(1, "a.png"), hdr}, Foreign: &Foreign{Scheme: "case", Styles: "fixed", StylesID: "RID2", ExtraLinks: 12, AbsTargets: 2}, Post: []ops.Op{img(2, "b.png"), ftr, li, reopen, img(3, "c.png")}},
+		{Ops: []ops.Op{img(1, "a.png"), hdr, li}, Foreign: &Foreign{Scheme: "prefixes", Styles: "last", RelsPrefix: 1, ExtraLinks: 3}, Post: []ops.Op{img(2, "b.png"), ftr, tbl, cellimg(3, 0, 0)}},
+		{Ops: []ops.Op{img(1, "a.png"), hdr}, Foreign: &Foreign{Scheme: "huge", Styles: "absent", TakeRId1: true, ExtraLinks: 63}, Post: []ops.Op{img(2, "b.png"), ftr, li}},
 	}
 }
